@@ -294,7 +294,7 @@ def main():
         "assumptions": list(getattr(P, "ASSUMPTIONS", [])),
         "wall_s": round(wall, 2), "violations": len(violations),
     }
-    if not a.replay:
+    if not a.replay and not os.environ.get("VERIF_NO_EVIDENCE"):     # (set when a check is tried against a patched scratch tree)
         core.EVID.mkdir(exist_ok=True)
         (core.EVID / f"{pid}.json").write_text(json.dumps(ev, indent=1, default=str))
     for line in known_lines:
